@@ -216,10 +216,36 @@ fn family_soup(t: &mut Tape) -> String {
     let n = t.count(1, 60);
     let mut s = String::new();
     for _ in 0..n {
+        if t.ratio(1, 12) {
+            s.push_str(&long_token(t));
+            s.push(' ');
+            continue;
+        }
         s.push_str(*t.pick(SOUP));
         s.push_str(*t.pick(&[" ", " ", "\n", "\t", "", " (* c *) ", "\r\n"]));
     }
     s
+}
+
+/// a long string / comment token mixing ASCII with 2-, 3- and 4-byte characters at arbitrary
+/// byte offsets (code that slices token text by byte count must respect char boundaries)
+fn long_token(t: &mut Tape) -> String {
+    let n = t.below(90);
+    let mut body = String::new();
+    for _ in 0..n {
+        match t.below(6) {
+            0 => body.push(*t.pick(&['é', 'ß', 'Ä', 'ñ'])),
+            1 => body.push(*t.pick(&['€', '漢', '√'])),
+            2 => body.push('😀'),
+            _ => body.push((b'a' + t.below(26) as u8) as char),
+        }
+    }
+    match t.below(4) {
+        0 => format!("'{}'", body),
+        1 => format!("\"{}\"", body),
+        2 => format!("(* {} *)", body),
+        _ => format!("(*{}", body), // unclosed
+    }
 }
 
 fn mutate_lexemes(lex: &mut Vec<Lexeme>, t: &mut Tape) {
@@ -229,7 +255,16 @@ fn mutate_lexemes(lex: &mut Vec<Lexeme>, t: &mut Tape) {
             return;
         }
         let i = t.below(lex.len());
-        match t.below(7) {
+        match t.below(8) {
+            7 => {
+                let w = long_token(t);
+                let l = Lexeme { text: w, class: Class::Punct, join: crate::lexeme::Join::Space, mark: None };
+                if t.flag() {
+                    lex.insert(i, l);
+                } else {
+                    lex[i] = l;
+                }
+            }
             0 => {
                 lex.remove(i);
             }
